@@ -17,6 +17,9 @@ pub struct ProgressWatcher {
     timeout: Duration,
     last_tick: Instant,
     last_observed_counter: u64,
+    /// verif hook: `last_tick` on the (possibly paused) tokio clock
+    #[cfg(datacake_verif)]
+    verif_last_tick: tokio::time::Instant,
 }
 
 impl ProgressWatcher {
@@ -26,10 +29,13 @@ impl ProgressWatcher {
             timeout,
             last_tick: Instant::now(),
             last_observed_counter: 0,
+            #[cfg(datacake_verif)]
+            verif_last_tick: tokio::time::Instant::now(),
         }
     }
 
     /// Checks if the task has expired or made progress.
+    #[cfg_attr(datacake_verif, allow(unreachable_code))]
     pub fn has_expired(&mut self) -> bool {
         if self.is_done() {
             return false;
@@ -40,8 +46,16 @@ impl ProgressWatcher {
         if counter > self.last_observed_counter {
             self.last_tick = Instant::now();
             self.last_observed_counter = counter;
+            #[cfg(datacake_verif)]
+            {
+                self.verif_last_tick = tokio::time::Instant::now();
+            }
             return false;
         }
+
+        // verif hook: the watchdog follows the tokio clock instead of the wall clock
+        #[cfg(datacake_verif)]
+        return self.verif_last_tick.elapsed() > self.timeout;
 
         self.last_tick.elapsed() > self.timeout
     }
